@@ -17,8 +17,18 @@ type lost struct {
 	Off    int  // payload offset of the first unexplained byte
 	Mask   byte // unexplained differing bits of that byte
 	What   string
-	NBytes int // number of payload bytes with unexplained bits in this box
+	NBytes int    // number of payload bytes with unexplained bits in this box
+	Shape  string // bytes: where in the last syntax element the dropped bytes began
 }
+
+// restOfBox lists the leaf types whose last syntax element extends to the end
+// of the box by definition (14496-12 8.4.3 hdlr name, 8.6.4 sdtp, 12.3.3.2
+// mime content_type; 14496-30 cue text boxes; 23009-1 5.10.3.3 emsg
+// message_data; AV1-ISOBMFF 2.3 configOBUs; iTunes data value; CEA-608 cdat):
+// such a box has no bytes after its last syntax element, so N3 never applies
+// and a shorter output has lost bytes of that element.
+var restOfBox = map[string]bool{"hdlr": true, "sdtp": true, "mime": true, "payl": true, "iden": true, "ctim": true, "sttg": true, "vlab": true,
+	"vttC": true, "vtta": true, "emsg": true, "av1C": true, "data": true, "cdat": true}
 
 // keyClass names the codec a box type is decoded by: all visual sample
 // entries share one decoder/encoder pair, as do all audio sample entries, so
@@ -73,6 +83,9 @@ func (l lost) key() string {
 		}
 		return fmt.Sprintf("lost-bits/%s/v%s/+%s", keyClass(l.Type), ver, off)
 	default:
+		if l.Shape != "" {
+			return "lost-" + l.Kind + "/" + keyClass(l.Type) + "/" + l.Shape
+		}
 		return "lost-" + l.Kind + "/" + keyClass(l.Type)
 	}
 }
@@ -84,8 +97,9 @@ type cmp struct {
 	dc          *dontCare
 	explained   map[string]int64 // mask id / normalisation id -> positions (bytes) / occurrences
 	lost        []lost
-	sizeChanged bool // N1 or N3 applied
-	reordered   bool // N2 applied
+	rootsX      []*boxwalk.Node // top-level boxes of x
+	sizeChanged bool            // N1 or N3 applied
+	reordered   bool            // N2 applied
 	// sweep: collect every unexplained position instead of the first per box
 	all bool
 }
@@ -117,6 +131,9 @@ func sameTypes(a, b []*boxwalk.Node) bool {
 }
 
 func (s *cmp) forest(nx, ny []*boxwalk.Node, parent *boxwalk.Node) {
+	if parent == nil && s.rootsX == nil {
+		s.rootsX = nx
+	}
 	if !sameTypes(nx, ny) {
 		ptype, ppath := "<top>", "<top>"
 		if parent != nil {
@@ -201,6 +218,28 @@ func (s *cmp) node(a, b *boxwalk.Node) {
 			s.addLost(lost{Kind: "shrunk", Type: a.Type, Path: a.Path(), What: fmt.Sprintf("%s: payload %d bytes in the input, %d in the output", a.Path(), len(pa), len(pb))})
 			return
 		}
+		if restOfBox[a.Type] {
+			// the last element runs to the end of the box: nothing is surplus
+			shape := "rewritten"
+			before := len(s.lost)
+			s.bytes(a, pa[:len(pb)], pb, pa)
+			if len(s.lost) == before { // the kept part equals the input modulo the listed masks
+				shape = "tail-dropped"
+				if len(pb) > 0 && pb[len(pb)-1] == 0 {
+					shape = "cut-after-nul"
+				}
+			}
+			s.addLost(lost{Kind: "bytes", Type: a.Type, Path: a.Path(), Shape: shape,
+				What: fmt.Sprintf("%s: payload %d bytes in the input, %d in the output (%s): the last syntax element of a %s box extends to the end of the box, the dropped bytes % x belong to it",
+					a.Path(), len(pa), len(pb), shape, a.Type, clip(pa[len(pb):], 32))})
+			return
+		}
+		if need, ok := s.sencTableLen(a, pa); ok && len(pa) >= need && len(pb) < need {
+			s.addLost(lost{Kind: "bytes", Type: a.Type, Path: a.Path(), Shape: "iv-table-cut",
+				What: fmt.Sprintf("%s: payload %d bytes in the input, %d in the output, but sample_count x Per_Sample_IV_Size of the track's tenc (no sbgp+sgpd pair in the traf overrides it) needs %d: initialization vectors were dropped",
+					a.Path(), len(pa), len(pb), need)})
+			return
+		}
 		s.explained["N3"]++
 		s.n3Types = append(s.n3Types, a.Type)
 		s.explained["N3.bytes_dropped"] += int64(len(pa) - len(pb))
@@ -247,6 +286,79 @@ func (s *cmp) bytes(a *boxwalk.Node, fa, fb, full []byte) {
 	if first != nil {
 		s.addLost(*first)
 	}
+}
+
+// sencTableLen is the harness's own reading (23001-7 7.2, 8.2, 10.1) of how
+// many payload bytes the syntax of a senc box without sub-sample table
+// occupies: 8 + sample_count x Per_Sample_IV_Size, where the IV size is the
+// track default of the tenc box unless the samples are mapped (sbgp) to a seig
+// description. It decides only the plain case: one trak in a moov in front of
+// the fragment, its first sample entry enca/encv with sinf/schi/tenc announcing
+// 8- or 16-byte IVs, and a traf without any sbgp/sgpd pair.
+func (s *cmp) sencTableLen(a *boxwalk.Node, pa []byte) (int, bool) {
+	if a.Type != "senc" || len(pa) < 8 || pa[3]&2 != 0 || a.Parent == nil || a.Parent.Type != "traf" {
+		return 0, false
+	}
+	hasSbgp, hasSgpd := false, false
+	for _, sib := range a.Parent.Children {
+		hasSbgp = hasSbgp || sib.Type == "sbgp"
+		hasSgpd = hasSgpd || sib.Type == "sgpd"
+	}
+	if hasSbgp && hasSgpd {
+		return 0, false
+	}
+	var moov *boxwalk.Node
+	for _, r := range s.rootsX {
+		if r.Type == "moov" && r.Start < a.Start {
+			if moov != nil {
+				return 0, false
+			}
+			moov = r
+		}
+	}
+	if moov == nil {
+		return 0, false
+	}
+	var trak *boxwalk.Node
+	for _, c := range moov.Children {
+		if c.Type == "trak" {
+			if trak != nil {
+				return 0, false
+			}
+			trak = c
+		}
+	}
+	if trak == nil {
+		return 0, false
+	}
+	stsd := trak.Descend("mdia", "minf", "stbl", "stsd")
+	if stsd == nil || len(stsd.Children) == 0 || (stsd.Children[0].Type != "enca" && stsd.Children[0].Type != "encv") {
+		return 0, false
+	}
+	one := func(t string) bool { return len(boxwalk.Find([]*boxwalk.Node{moov}, t)) == 1 }
+	if !one("tenc") || !one("sinf") || !one("schi") || !one("stsd") || !one("stbl") || !one("minf") || !one("mdia") {
+		return 0, false
+	}
+	tenc := stsd.Children[0].Descend("sinf", "schi", "tenc")
+	if tenc == nil {
+		return 0, false
+	}
+	tp := tenc.Payload(s.x)
+	if len(tp) < 8 || (tp[7] != 8 && tp[7] != 16) {
+		return 0, false
+	}
+	n := int(pa[4])<<24 | int(pa[5])<<16 | int(pa[6])<<8 | int(pa[7])
+	if n <= 0 || n > 1<<20 {
+		return 0, false
+	}
+	return 8 + n*int(tp[7]), true
+}
+
+func clip(b []byte, n int) []byte {
+	if len(b) > n {
+		return b[:n]
+	}
+	return b
 }
 
 func (s *cmp) addLostAll(l lost) {
